@@ -443,7 +443,9 @@ func gcd(a, b uint64) uint64 {
 func runSweep(c *core.Ctx, t *core.Trace) {
 	// the sweep allocates a few small slices per pattern over a small live heap: at the default pacing the collector
 	// runs every few milliseconds, and on a loaded machine each of its handshakes waits for descheduled threads
-	defer debug.SetGCPercent(debug.SetGCPercent(800))
+	// (a soft memory limit keeps the relaxed pacing from growing the heap when the collector itself is starved)
+	defer debug.SetGCPercent(debug.SetGCPercent(300))
+	defer debug.SetMemoryLimit(debug.SetMemoryLimit(1 << 30))
 	spaces := sweepSpaces(c.Thorough(), uint64(c.Seed))
 	workers := runtime.NumCPU()
 	var fails []mismatch
